@@ -10,6 +10,7 @@
    per logging call, the trace of actions; [calls_of d] projects a trace on
    destination d's call log (entry mode = Write or WriteLevel l, bytes). *)
 From Verif Require Import Base.Prelude Misc.Level Lts.Writers Proofs.WritersP.
+From Verif Require Import Lts.WriterTree Proofs.WriterTreeP.
 From Verif Require Base.GoSem Base.GoEff Base.GoExt Gen.WriterSrc Proofs.SrcWriterP.
 Open Scope Z_scope.
 
@@ -215,6 +216,45 @@ Theorem C14_source_translated_set :
   length WriterSrc.translated_functions = 5%nat /\ length WriterSrc.skipped_functions = 4%nat.
 Proof. exact SrcWriterP.writer_counts. Qed.
 
+(* ---- writers built from writers (Lts/WriterTree.v): MultiLevelWriter whose arguments are results of earlier
+   MultiLevelWriter calls (a fan-out extended by a destination, nested fan-outs), possibly behind SyncWriter /
+   FilteredLevelWriter / LevelWriterAdapter.  For ALL such expressions in which every MultiLevelWriter call has at
+   least one argument, all entry modes, byte strings and destination answers: one call makes exactly the destination
+   calls, in the same order, and returns the same error as the one-level MultiLevelWriter over the flattened
+   destinations (each behind the wrappers met on the way down), so every theorem above applies to it with
+   [c_dests := flatten t].  This is what the correspondence run relies on when it ships a logging step of a writer
+   derivation as a case over the flattened destinations of its writer. ---- *)
+Theorem C14_nested_writer_is_its_destinations : forall ws args m p o,
+  nonempty (TMulti ws args) = true ->
+  fst (tree_call (TMulti ws args) 0%nat m p o) = fst (multi_write (flatten (TMulti ws args)) m p o) /\
+  snd (snd (tree_call (TMulti ws args) 0%nat m p o)) = snd (snd (multi_write (flatten (TMulti ws args)) m p o)).
+Proof. exact nested_is_flat. Qed.
+
+(* ... so each destination of the derived writer is called once per call that its wrappers let through, whatever
+   any destination answered ([o] does not occur on the right) *)
+Theorem C14_nested_writer_every_destination_once : forall ws args m p o d,
+  nonempty (TMulti ws args) = true ->
+  calls_of d (fst (tree_call (TMulti ws args) 0%nat m p o)) =
+  match nth_error (flatten (TMulti ws args)) d with Some dd => delivered dd m p | None => [] end.
+Proof. exact nested_calls_of. Qed.
+
+(* the premise is needed: MultiLevelWriter() answers (0, nil), which the MultiLevelWriter it is an argument of takes
+   for a short write; and it is satisfiable: a base fan-out extended once and then twice more (two siblings) *)
+Example C14_nested_empty_argument_is_short_write :
+  snd (snd (tree_call (TMulti [] [TMulti [] []; TDest {| d_wraps := []; d_leaf := LLevel |}]) 0%nat (MLevel 1) [123;125;10]%N (fun _ => OOk))) = Some EShortWrite /\
+  snd (snd (multi_write (flatten (TMulti [] [TMulti [] []; TDest {| d_wraps := []; d_leaf := LLevel |}])) (MLevel 1) [123;125;10]%N (fun _ => OOk))) = None.
+Proof. vm_compute. split; reflexivity. Qed.
+
+Example C14_nested_ex :
+  let L := {| d_wraps := []; d_leaf := LLevel |} in
+  let service := TMulti [] [TMulti [] [TDest L; TDest L]; TDest L] in
+  let req1 := TMulti [] [service; TDest {| d_wraps := [WFiltered 2]; d_leaf := LPlain |}] in
+  nonempty req1 = true /\
+  tree_call req1 0%nat (MLevel 3) [123;125;10]%N (fun i => if Nat.eqb i 1 then OShort 1 else OOk) =
+  ([ACall 0 (MLevel 3) [123;125;10]%N; ACall 1 (MLevel 3) [123;125;10]%N; ACall 2 (MLevel 3) [123;125;10]%N;
+    ACall 3 MWrite [123;125;10]%N], (1, Some EShortWrite)).
+Proof. vm_compute. split; reflexivity. Qed.
+
 Print Assumptions C14_every_destination_once.
 Print Assumptions C14_level_writer_destination.
 Print Assumptions C14_io_writer_destination.
@@ -238,3 +278,5 @@ Print Assumptions C14_source_filtered_write_level.
 Print Assumptions C14_source_filtered_is_model.
 Print Assumptions C14_source_adapter_write_level.
 Print Assumptions C14_source_translated_set.
+Print Assumptions C14_nested_writer_is_its_destinations.
+Print Assumptions C14_nested_writer_every_destination_once.
